@@ -26,8 +26,16 @@ class Cfg:
     def _pruned_succs(self, b):
         """successors; `switchInt(const)` keeps only the taken edge (debug_assert! residue etc.)."""
         t = self.body.blocks[b]["term"]
-        if t["k"] == "switch" and "const" in t["discr"]:
-            c = t["discr"]["const"]
+        discr = t.get("discr") if t["k"] == "switch" else None
+        if discr is not None and "const" not in discr:
+            # `_x = const false; switchInt(move _x)` (debug_assert! residue with -Cdebug-assertions=off)
+            p = discr.get("move") or discr.get("copy")
+            if p and not p["proj"]:
+                c0 = self._const_locals().get(p["local"])
+                if c0 is not None:
+                    discr = {"const": c0}
+        if t["k"] == "switch" and "const" in discr:
+            c = discr["const"]
             v = None
             if "bool" in c:
                 v = 1 if c["bool"] else 0
@@ -43,6 +51,27 @@ class Cfg:
             if s not in out:
                 out.append(s)
         return out
+
+    def _const_locals(self):
+        """locals with exactly one definition in the whole body, which is a boolean/integer constant"""
+        if not hasattr(self, "_cl"):
+            defs = {}
+            for blk in self.body.blocks:
+                for s in blk["stmts"]:
+                    if not s["place"]["proj"]:
+                        defs.setdefault(s["place"]["local"], []).append(s)
+                    if s["k"] == "assign" and s["rv"]["k"] in ("ref", "rawptr") and s["rv"].get("mut") and not s["rv"]["place"]["proj"]:
+                        defs.setdefault(s["rv"]["place"]["local"], []).append(None)
+                tt = blk["term"]
+                if tt["k"] == "call" and not tt["dest"]["proj"]:
+                    defs.setdefault(tt["dest"]["local"], []).append(None)
+            self._cl = {}
+            for l, ds in defs.items():
+                if len(ds) == 1 and ds[0] is not None and ds[0]["k"] == "assign" and ds[0]["rv"]["k"] == "use" and "const" in ds[0]["rv"]["a"]:
+                    c = ds[0]["rv"]["a"]["const"]
+                    if "bool" in c or "int" in c:
+                        self._cl[l] = c
+        return self._cl
 
     def _reachable_from(self, start, succ=None):
         succ = succ or self.succ
